@@ -6,6 +6,7 @@ import (
 	"go/token"
 	"go/types"
 	"math/bits"
+	"sort"
 	"strings"
 
 	"golang.org/x/tools/go/ssa"
@@ -376,6 +377,7 @@ func runC10Enumeration(c *Ctx) {
 
 	// ---- E2: k-of-n enumerator
 	var gen, scan *ssa.Function
+	fused := false
 	{
 		paths, _ := s.Function(sub)
 		cards, k := "param:"+sub.Params[0].Name(), "param:"+sub.Params[1].Name()
@@ -430,7 +432,10 @@ func runC10Enumeration(c *Ctx) {
 					case e.Kind == "loop":
 						nIn++
 						ri := analyseRange(e.Loop)
-						if !ri.Full || len(e.Loop.Exits) != 1 || sc == nil || (e.InFn == sub && ri.Coll != ssa.Value(sc.Instr.(ssa.Value))) {
+						if sc == nil {
+							continue // fused form, decided below
+						}
+						if !ri.Full || len(e.Loop.Exits) != 1 || (e.InFn == sub && ri.Coll != ssa.Value(sc.Instr.(ssa.Value))) {
 							bad = append(bad, "the loop over the bit positions does not visit every position")
 						}
 						ib, _ := s.LoopBody(e.InFn, e.Loop)
@@ -465,6 +470,19 @@ func runC10Enumeration(c *Ctx) {
 					}
 				}
 				if sc == nil {
+					// fused form: one pass over the card positions that tests the position's bit
+					// of the mask and takes the card at that position (no list of positions)
+					if msg, cells, ok := fusedDecode(s, sub, q, ro, cards, fnKey(gen)); ok {
+						fused = true
+						c.Sites += cells
+						if msg != "" {
+							bad = append(bad, msg)
+						}
+						if nSt != 1 {
+							bad = append(bad, "a mask does not yield exactly one recorded selection")
+						}
+						continue
+					}
 					bad = append(bad, "a mask is not decoded into positions")
 					continue
 				}
@@ -578,7 +596,9 @@ func runC10Enumeration(c *Ctx) {
 	}
 
 	// ---- E4: bit scanner
-	if scan == nil {
+	if scan == nil && fused {
+		c.ok(rule, "bit-scanner", "-", "fused into the pass over the card positions (decided with masks-to-cards)")
+	} else if scan == nil {
 		c.undecided(rule, "bit-scanner", "-", "not resolved")
 	} else {
 		c.touch(fnKey(scan))
@@ -699,12 +719,18 @@ func runC10Enumeration(c *Ctx) {
 // arguments (simultaneously).
 func substParams(v string, fn *ssa.Function, args []*Val) string {
 	var pairs []string
-	for i, prm := range fn.Params {
+	// longer names first: "param:t" must not eat the head of "param:target"
+	order := make([]int, 0, len(fn.Params))
+	for i := range fn.Params {
+		order = append(order, i)
+	}
+	sort.SliceStable(order, func(a, b int) bool { return len(fn.Params[order[a]].Name()) > len(fn.Params[order[b]].Name()) })
+	for _, i := range order {
 		if i < len(args) {
-			pairs = append(pairs, "param:"+prm.Name(), "\x00"+fmt.Sprint(i)+"\x00")
+			pairs = append(pairs, "param:"+fn.Params[i].Name(), "\x00"+fmt.Sprint(i)+"\x00")
 		}
 	}
-	v = strings.NewReplacer(pairs...).Replace(v)
+	v = replaceWholeNames(v, pairs)
 	pairs = pairs[:0]
 	for i := range fn.Params {
 		if i < len(args) {
@@ -712,4 +738,150 @@ func substParams(v string, fn *ssa.Function, args []*Val) string {
 		}
 	}
 	return strings.NewReplacer(pairs...).Replace(v)
+}
+
+// fusedDecode decides the fused form of E2/E4 for one body path q of the loop over the masks:
+// exactly one inner loop, a counting loop i = 0 .. len(cards)-1 (in the enumerator or in a helper
+// given the cards and the visited mask), whose only test is a closed form of (mask, i) that is
+// true exactly when bit i of the mask is set, the taking branch appending cards[i]. ok is false
+// when q does not have that form at all.
+func fusedDecode(s *Summ, sub *ssa.Function, q *PathSum, ro rangeInfo, cards string, genKey string) (msg string, cells int, ok bool) {
+	var le *Event
+	n := 0
+	for _, e := range q.Events {
+		if e.Kind == "loop" {
+			le = e
+			n++
+		}
+	}
+	if n != 1 {
+		return "", 0, false
+	}
+	l, host := le.Loop, le.InFn
+	ph, bound, cmp := loopHead(l)
+	if ph == nil || cmp == nil {
+		return "", 0, false
+	}
+	// the cards and the mask as values of the host function
+	var cardsV, maskV ssa.Value
+	if host == sub {
+		cardsV = sub.Params[0]
+		maskV = ro.ElemLoad
+	} else {
+		var en *Event
+		for _, x := range q.Events {
+			if x.Kind == "enter" && x.Fn == host {
+				en = x
+			}
+		}
+		if en == nil {
+			return "", 0, false
+		}
+		for i, prm := range host.Params {
+			if i >= len(en.Args) || en.Args[i] == nil {
+				continue
+			}
+			a := en.Args[i].String()
+			if a == cards {
+				cardsV = prm
+			}
+			if strings.Contains(a, "[iter:") && strings.HasPrefix(a, genKey+"(") {
+				maskV = prm
+			}
+		}
+	}
+	if cardsV == nil || maskV == nil {
+		return "", 0, false
+	}
+	// i = 0 .. len(cards)-1, one by one
+	init, step := phiInitStep(l, ph)
+	if k, isC := constInt(init); !isC || k != 0 {
+		return "the pass over the card positions does not start at position 0", 0, true
+	}
+	if !isPlusOne(step, ph) {
+		return "the pass over the card positions does not step by one", 0, true
+	}
+	if cmp.Op != token.LSS || cmp.X != ssa.Value(ph) {
+		return "the pass over the card positions is not bounded by i < len(cards)", 0, true
+	}
+	if call, isCall := bound.(*ssa.Call); !isCall || len(call.Call.Args) != 1 || call.Call.Args[0] != cardsV {
+		return "the pass over the card positions is not bounded by the number of cards", 0, true
+	} else if bi, isB := call.Call.Value.(*ssa.Builtin); !isB || bi.Name() != "len" {
+		return "the pass over the card positions is not bounded by the number of cards", 0, true
+	}
+	if len(l.Exits) != 1 {
+		return "the pass over the card positions can stop early", 0, true
+	}
+	// the single test inside the loop
+	var bitIf *ssa.If
+	for b := range l.Blocks {
+		if b == l.Header {
+			continue
+		}
+		if ifi, isIf := b.Instrs[len(b.Instrs)-1].(*ssa.If); isIf {
+			if bitIf != nil {
+				return "more than one test inside the pass over the card positions", 0, true
+			}
+			bitIf = ifi
+		}
+	}
+	if bitIf == nil {
+		return "no bit test in the pass over the card positions", 0, true
+	}
+	takes := func(b *ssa.BasicBlock) bool {
+		for _, in := range b.Instrs {
+			if ia, isIA := in.(*ssa.IndexAddr); isIA && ia.X == cardsV && ia.Index == ssa.Value(ph) {
+				return true
+			}
+		}
+		return false
+	}
+	recOnTrue := takes(bitIf.Block().Succs[0])
+	if !recOnTrue && !takes(bitIf.Block().Succs[1]) {
+		return "the card taken is not the one at the tested position", 0, true
+	}
+	for v := int64(0); v < 1<<6; v++ {
+		for i := int64(0); i < 6; i++ {
+			env := map[ssa.Value]int64{maskV: v, ph: i}
+			t, okE := evalSSA(bitIf.Cond, env)
+			if !okE {
+				return "the bit test is not a closed form of (mask, position)", cells, true
+			}
+			cells++
+			if ((t == 1) == recOnTrue) != ((v>>uint(i))&1 == 1) {
+				return fmt.Sprintf("mask %06b position %d: taken=%v", v, i, (t == 1) == recOnTrue), cells, true
+			}
+		}
+	}
+	return "", cells, true
+}
+
+// replaceWholeNames replaces each name (pairs[0], pairs[2], ...) by its partner where the name is
+// not the head of a longer identifier (the next character is not a letter, digit or underscore).
+func replaceWholeNames(v string, pairs []string) string {
+	var sb strings.Builder
+	for i := 0; i < len(v); {
+		done := false
+		for k := 0; k+1 < len(pairs); k += 2 {
+			name := pairs[k]
+			if strings.HasPrefix(v[i:], name) {
+				j := i + len(name)
+				if j < len(v) {
+					ch := v[j]
+					if ch == '_' || (ch >= '0' && ch <= '9') || (ch >= 'a' && ch <= 'z') || (ch >= 'A' && ch <= 'Z') {
+						continue
+					}
+				}
+				sb.WriteString(pairs[k+1])
+				i = j
+				done = true
+				break
+			}
+		}
+		if !done {
+			sb.WriteByte(v[i])
+			i++
+		}
+	}
+	return sb.String()
 }
